@@ -1,6 +1,6 @@
 """C08 - writer produces the complete file or throws; OS write errors are never lost (the sequential kernels)."""
 from cv import Pipeline, Unit
-import cx
+import cx, re
 
 PROPERTY = 'C08'
 LEVEL = 'proof'
@@ -189,6 +189,88 @@ PIPELINES.append(Pipeline('U3_Bzip2Compressor_close', units=[U_bzc], prelude=ZST
     harness='void harness(void) { struct Bzip2Compressor* c; Bzip2Compressor_close(c); __CPROVER_assert(verif_exc != 0, "canary:normal"); __CPROVER_assert(verif_exc == 0, "canary:throw"); }',
     canaries=['canary:normal', 'canary:throw'], replay=('c08_write', lambda cex, o: ['search'])))
 
+# ---- Writer: the sequential state machine around the output (status okay / error / closed; the end-of-data marker is queued exactly once) -------------
+WR = 'include/osmium/io/writer.hpp'
+
+
+def inline_ensure_cleanup(body, R, _cache={}):
+    """ensure_cleanup([&]() { BODY });  ->  the body of the template Writer::ensure_cleanup with func(...) replaced by BODY (template + lambda instantiated by text)"""
+    src = _cache.get('src')
+    if src is None:
+        raise cx.ExtractError('inline_ensure_cleanup: source not loaded')
+    tmpl = cx.find_function(src, 'ensure_cleanup', cls='Writer')['body']
+    if 'func(std::forward<TArgs>(args)...);' not in tmpl:
+        raise cx.ExtractError('Writer::ensure_cleanup no longer calls func(std::forward<TArgs>(args)...)')
+    n = 0
+    while True:
+        m = re.search(r'ensure_cleanup\(\[&\]\(\) \{', body)
+        if not m:
+            break
+        b = m.end() - 1
+        e = cx.match_close(body, b)
+        rest = body[e + 1:]
+        mm = re.match(r'\s*\);', rest)
+        if not mm:
+            raise cx.ExtractError('ensure_cleanup call not understood')
+        body = body[:m.start()] + tmpl.replace('func(std::forward<TArgs>(args)...);', body[b:e + 1]) + rest[mm.end():]
+        n += 1
+    if not n:
+        raise cx.ExtractError('no ensure_cleanup([&]() {...}) call found')
+    R.hit('unit_rewrite:ensure_cleanup template instantiated', n)
+    return body
+
+
+def wr_prelude(repo):
+    src = cx.preprocess(cx.strip_comments(open(repo + '/' + WR).read()))
+    inline_ensure_cleanup.__defaults__[0]['src'] = src
+    return cx.extract_enum(repo, WR, 'status') + '''
+typedef int Buffer;
+struct Writer { status m_status; bool m_header_written; bool m_notification; int m_buffer; size_t m_buffer_size; };
+/* ghost: what reached the output queue, and whether the output format was used */
+unsigned ghost_q_exc, ghost_q_eod, ghost_q_eod_after_exc, ghost_out_calls;
+int verif_nondet_int(void) { int verif_any; return verif_any; }
+/* OutputFormat::write_header / write_buffer / write_end, check_for_exception(future): may throw anything (io_error from a format, the exception of the write thread) */
+void Out_call(void) { ++ghost_out_calls; if (verif_nondet_int()) { verif_exc = EXC_io_error; } }
+void Q_add_exception(void) { ++ghost_q_exc; }
+void Q_add_eod(void) { ++ghost_q_eod; if (ghost_q_exc) ghost_q_eod_after_exc = 1; }
+'''
+
+
+WPRE = [(r'm_output->write_header\(m_header\);', 'Out_call();', '?'), (r'm_output->write_buffer\(std::move\(buffer\)\);', 'Out_call();', '?'), (r'm_output->write_end\(\);', 'Out_call();', '?'),
+        (r'osmium::thread::check_for_exception\(m_write_future\);', 'Out_call();', '?'),
+        (r'detail::add_to_queue\(m_output_queue, std::current_exception\(\)\);', 'Q_add_exception();', '?'), (r'detail::add_end_of_data_to_queue\(m_output_queue\);', 'Q_add_eod();', '?'),
+        (r'if \(m_header\.get\("generator"\)\.empty\(\)\) \{\s*m_header\.set\("generator", "libosmium/" LIBOSMIUM_VERSION_STRING\);\s*\}', '/* header */', '?'),
+        (r'\(buffer && buffer\.committed\(\) > 0\)', '(verif_nondet_int())', '?'), (r'\(m_buffer && m_buffer\.committed\(\) > 0\)', '(verif_nondet_int())', '?'),
+        (r'osmium::memory::Buffer buffer\{m_buffer_size,\s*osmium::memory::Buffer::auto_grow::no\};\s*using std::swap;\s*swap\(m_buffer, buffer\);', '/* swap in an empty buffer */', '?'),
+        (r'std::move\((\w+)\)', r'\1', '?'), (r'throw io_error\("[^"]*"\);', 'throw io_error{};', '?')]
+WMT = {'Out_call': True, 'Writer_write_header': True, 'Writer_do_write': True, 'Writer_do_flush': True}
+U_wh = Unit(WR, 'write_header', cls='Writer', enums=['status'], pre=WPRE)
+U_dw = Unit(WR, 'do_write', cls='Writer', enums=['status'], params=['Buffer buffer'], pre=WPRE)
+U_df = Unit(WR, 'do_flush', cls='Writer', enums=['status'], pre=WPRE)
+U_flush = Unit(WR, 'flush', cls='Writer', enums=['status'], pre=[inline_ensure_cleanup] + WPRE)
+U_opbuf = Unit(WR, 'operator()', cls='Writer', cname='Writer_write_buffer', sig=r'osmium::memory::Buffer&& buffer', enums=['status'], params=['Buffer buffer'], pre=[inline_ensure_cleanup] + WPRE)
+U_dclose = Unit(WR, 'do_close', cls='Writer', enums=['status'], pre=[inline_ensure_cleanup] + WPRE)
+W_INV = ('(self->m_status == status_okay || self->m_status == status_error || self->m_status == status_closed) && (self->m_status == status_okay) == (ghost_q_eod == 0) && ghost_q_eod <= 1 && ghost_q_exc <= 1 && '
+         '(ghost_q_exc == 0 || (self->m_status == status_error && ghost_q_eod_after_exc))')
+W_PRE = ('pre:any state of the writer; the end-of-data marker has been queued exactly if the writer is no longer in status okay', 'requires',
+         'verif_exc == 0 && __CPROVER_is_fresh(self, sizeof(*self)) && ' + W_INV + ' && ghost_out_calls < 1000 && (ghost_q_exc == 0 || ghost_q_eod_after_exc)')
+W_FRAME = ('frame', 'assigns', 'verif_exc, verif_caught, self->m_status, self->m_header_written, ghost_q_exc, ghost_q_eod, ghost_q_eod_after_exc, ghost_out_calls')
+W_POST = [('post:the invariant holds again (the marker is never queued twice, so the write thread terminates exactly once)', 'ensures', W_INV),
+          ('post:a writer that is closed or has failed refuses with io_error and touches neither the output format nor the queue', 'ensures',
+           '__CPROVER_old(self->m_status) == status_okay || (%s && self->m_status == __CPROVER_old(self->m_status) && ghost_out_calls == __CPROVER_old(ghost_out_calls) && ghost_q_eod == __CPROVER_old(ghost_q_eod) && ghost_q_exc == __CPROVER_old(ghost_q_exc))'),
+          ('post:a failure is never swallowed: the exception leaves the call, the writer is in status error, and the exception followed by the end-of-data marker went to the write thread', 'ensures',
+           '__CPROVER_old(self->m_status) != status_okay || verif_exc == 0 || (self->m_status == status_error && ghost_q_exc == 1 && ghost_q_eod == 1 && ghost_q_eod_after_exc)')]
+for name, u, cn, okpost, refuse in (('flush', U_flush, 'Writer_flush', 'verif_exc != 0 || self->m_status == status_okay', 'verif_exc == EXC_io_error'),
+                                     ('write_buffer', U_opbuf, 'Writer_write_buffer', 'verif_exc != 0 || self->m_status == status_okay', 'verif_exc == EXC_io_error'),
+                                     ('do_close', U_dclose, 'Writer_do_close', '__CPROVER_old(self->m_status) != status_okay || verif_exc != 0 || (self->m_status == status_closed && ghost_q_eod == 1 && ghost_q_exc == 0)', 'verif_exc == 0')):
+    posts = [(l, k, (t % refuse) if '%s' in t else t) for l, k, t in W_POST]
+    PIPELINES.append(Pipeline('U4_Writer_' + name, units=[U_wh, U_dw, U_df, u], prelude=wr_prelude, contracts={cn: [W_PRE] + posts + [
+        ('post:a call that returns normally leaves the writer usable' if name != 'do_close' else 'post:a successful close queues the marker once and ends in status closed; closing again does nothing', 'ensures', okpost), W_FRAME]},
+        maythrow=WMT, enforce=cn,
+        harness='void harness(void) { struct Writer* w; %s; __CPROVER_assert(verif_exc != 0, "canary:normal"); __CPROVER_assert(verif_exc == 0, "canary:throw"); }' % ('%s(w%s)' % (cn, ', 0' if name == 'write_buffer' else '')),
+        canaries=['canary:normal', 'canary:throw'], replay=('c08_write', lambda cex, o: ['search']), noflags=['--conversion-check'],
+        note='Writer::ensure_cleanup (a template taking a lambda) is instantiated by text; the output format and the future are may-throw stubs'))
+
 TRUSTED = ['POSIX write/fsync/close return conventions (assumed contracts)', 'zlib/libbz2 return conventions']
 ASSUMPTIONS = ['write sizes up to 2^30 bytes per call of reliable_write (object-size bound)']
 NOT_DECIDED = ['propagation of the exception across the write thread / future', 'completeness of the file as a whole', 'Writer state machine', 'termination when the kernel accepts 0 bytes forever']
@@ -196,6 +278,9 @@ LEVEL_TEXT = ('Proof, relative to the POSIX return conventions: reliable_write r
               'every pattern of short writes, EINTR and errors (nested do-while loops closed by loop contracts), and throws system_error on any other failure; reliable_fsync/reliable_close make '
               'the call and report failure; NoCompressor::write accounts exactly the accepted bytes and propagates errors; NoCompressor::close syncs (if requested) before closing, propagates '
               'each failure, and a second close or stdout makes no system call; GzipCompressor and Bzip2Compressor write/close turn every failure the library or the OS reports into gzip_error / bzip2_error / system_error, '
-              'finish the compressed stream before syncing and closing, and report the size the library/OS returned.')
-LEVEL_NOTE = ('Trusted: CBMC, extraction rules, POSIX conventions as stub contracts. Not decided: propagation across the write thread and future, Writer state machine, what libz/libbz2 do inside their calls, '
+              'finish the compressed stream before syncing and closing, and report the size the library/OS returned. The sequential state machine of the Writer (flush, operator()(Buffer&&), do_close, with '
+              'ensure_cleanup instantiated): a failure in the output format or reported by the write thread is never swallowed - the exception leaves the call, the writer goes to status error, and the '
+              'exception followed by exactly one end-of-data marker is queued for the write thread; a closed or failed writer refuses every further call with io_error without touching the output; a successful '
+              'close queues the marker once.')
+LEVEL_NOTE = ('Trusted: CBMC, extraction rules, POSIX conventions as stub contracts. Not decided: propagation across the write thread and future (threads), operator()(const Item&) (buffer_is_full retry), what libz/libbz2 do inside their calls, '
               'termination if write() returns 0 forever.')
